@@ -197,11 +197,11 @@ def check_case(case, scratch, stats=None):
             if d[0] == '__exists__' and d[2] is False and os.path.lexists(os.path.join(root, o['path'])):
                 viol('treated_as_absent', f'{o["path"]!r} exists but was reported as missing')
     if op.startswith('cli') and not success(op, o):
-        for lv, m in o.get('log', []):
-            if lv == 'ERROR' and '__exists__: expected: True, have: False' in m:
-                p = m.split('\n')[0].replace('Manifest mismatch for ', '')
-                if os.path.lexists(os.path.join(root, p)):
-                    viol('treated_as_absent', f'{p!r} exists but was reported as missing')
+        for (lv, _m), info in zip(o.get('log', []), o.get('log_info', [])):
+            if lv == 'ERROR' and info and info['exc'] == 'ManifestMismatch' and info['path'] is not None:
+                if any(d[0] == '__exists__' and d[2] is False for d in (info['diff'] or [])) and \
+                        os.path.lexists(os.path.join(root, info['path'])):
+                    viol('treated_as_absent', f'{info["path"]!r} exists but was reported as missing')
     return out, F
 
 
